@@ -130,6 +130,8 @@ impl ViCmd {
 	pub fn normalize_counts(&mut self) {
 		let Some(verb) = self.verb.as_mut() else { return };
 		let Some(motion) = self.motion.as_mut() else { return };
+		// The count of a/A/I repeats the typed text, it does not multiply the motion
+		if matches!(verb.1, Verb::InsertMode) { return }
 		let VerbCmd(v_count, _) = verb;
 		let MotionCmd(m_count, _) = motion;
 		let product = *v_count * *m_count;
